@@ -631,6 +631,9 @@ def _exhaustive_shard(ctx: Ctx, shard: int, nshards: int, root: str, items: list
 
 # ---- Hypothesis-drawn workloads ----------------------------------------------------------------------------
 
+BATCH_ENDS = ["ok", "raise", "ignore"]
+
+
 def build(raw: dict) -> dict:
     """
     Turn drawn integers into a well-ordered case: dependencies are placed before their dependants by construction.
@@ -648,6 +651,7 @@ def build(raw: dict) -> dict:
     placed_meta: set[int] = set()
     placed: set[tuple] = set()
     ops: list[list] = []
+    in_batch = False
     for sel, var in raw["picks"]:
         cands: list[list] = []
         for t, (pseud, parent, _) in enumerate(tokens):
@@ -661,7 +665,22 @@ def build(raw: dict) -> dict:
         for b in range(len(blobs)):
             cands += [["blob", b]] * (1 if ("blob", b) in placed else 3)
         cands += [["reopen", "id"], ["reopen", "wallet"]]
+        if in_batch:
+            # a block is left before the database is re-opened; blobs live in the other database
+            cands = [c for c in cands if c[0] not in ("reopen", "blob")] + [["batch_end", BATCH_ENDS[var % 3]]] * 3
+        elif raw.get("batches"):
+            cands += [["batch_begin", None]] * 2
+        if not cands:
+            continue
         kind, idx = cands[sel % len(cands)]
+        if kind == "batch_begin":
+            ops.append(["batch_begin"])
+            in_batch = True
+            continue
+        if kind == "batch_end":
+            ops.append(["batch_end", idx])
+            in_batch = False
+            continue
         if kind == "token":
             ops.append(["token", idx, var & 1])
             placed_tok.add(idx)
@@ -677,18 +696,23 @@ def build(raw: dict) -> dict:
         else:
             ops.append([kind, idx])
         placed.add((kind, idx))
+    if in_batch:
+        ops.append(["batch_end", BATCH_ENDS[len(ops) % 3]])
     # estimate of the number of crash points (only steers the draw; a point beyond the end is a clean exit)
     mode, frac = raw["kill"]
     api = sql = 0
     seen: set[str] = set()
     for op in ops:
         db = op[1] if op[0] == "reopen" else ("wallet" if op[0] == "blob" else "id")
+        if op[0] in ("batch_begin", "batch_end") and "id" not in seen:
+            api, sql = api + 4, sql + 19
+            seen.add("id")
         if op[0] == "reopen" and db in seen:
             api, sql = api + 6, sql + 14
         elif db not in seen:
             api, sql = api + 4, sql + 19
             seen.add(db)
-        if op[0] != "reopen":
+        if op[0] not in ("reopen", "batch_begin", "batch_end"):
             api, sql = api + 2, sql + 3
     span = 2 * api + 2 if mode == "api" else sql + 2
     # Hypothesis prefers small integers; a fixed permutation of 0..999 spreads them over the whole workload
@@ -707,6 +731,7 @@ def _strategy():
         "blobs": st.lists(st.one_of(st.integers(0, 8), st.integers(0, 600)), max_size=3),
         "picks": st.lists(st.tuples(st.integers(0, 63), st.integers(0, 7)), min_size=2, max_size=12),
         "kill": st.tuples(st.sampled_from(["api", "api", "sql"]), st.integers(0, 999)),
+        "batches": st.booleans(),
     })
 
 
